@@ -9,7 +9,7 @@
 
     c15modes : rule mode n line*n k (text class)*k p (text m (kind a b line)*m)*p
                -> stdout lines ... "|" status
-      rule: brush (eval as in the code) | bash (eval as specified);  mode: file | c | source | eval | stdin *)
+      rule: code (eval as in the code = as specified) | legacy (eval before fix e4871cd);  mode: file | c | source | eval | stdin *)
 From Coq Require Import String.
 From BV Require Import Base.Prelude Base.Codec Cache.Lru Modes.Classes Modes.Complete Modes.Modes Modes.Entry.
 
@@ -22,15 +22,16 @@ Inductive tcmd :=
 
 Record tstate := { t_out : list str; t_status : Z; t_trap : bool }.
 
-(** [bash_rule = false]: `eval` as in the unchanged code ([Modes.eval_builtin]: the text is read at
-    the frame's own base); [bash_rule = true]: the specification ([Modes.eval_builtin_bash]: at the
-    base plus the line of the `eval` word minus one). *)
-Definition texec (bash_rule : bool) (c : tcmd) (base : nat) (st : tstate) : tstate * flow :=
+(** [legacy = false]: `eval` as in the code ([Modes.eval_builtin]: the text is read at the frame's
+    base plus the line of the `eval` word minus one; this is also the specification,
+    [Modes.eval_lineno]); [legacy = true]: the behaviour before fix e4871cd (text read at the frame's
+    own base), kept only so that the driver can name the defect if it comes back. *)
+Definition texec (legacy : bool) (c : tcmd) (base : nat) (st : tstate) : tstate * flow :=
   let print tag suffix n :=
     ({| t_out := t_out st ++ [tag ++ [58%N] ++ enc_nat n ++ suffix]; t_status := 0; t_trap := t_trap st |}, FNormal) in
   match c with
   | TPrint tag suffix line => print tag suffix (base + line)%nat
-  | TEval tag line => print tag [] ((if bash_rule then base + (line - 1) else base) + 1)%nat
+  | TEval tag line => print tag [] ((if legacy then base else base + eval_line_delta line) + 1)%nat
   | TTrap => ({| t_out := t_out st; t_status := 0; t_trap := true |}, FNormal)
   | TStatus n => ({| t_out := t_out st; t_status := n; t_trap := t_trap st |}, FNormal)
   | TExit n => ({| t_out := t_out st; t_status := n; t_trap := t_trap st |}, FExit)
@@ -82,18 +83,18 @@ Fixpoint lookup_parse (tbl : list (str * list tcmd)) (t : str) : option (list tc
 
 Definition keq (a b : str * unit) : bool := str_eqb (fst a) (fst b).
 
-Definition run_mode (bash_rule : bool) (mode : str) (lines : list str) (pc : str -> pclass) (ptbl : list (str * list tcmd)) : tstate :=
+Definition run_mode (legacy : bool) (mode : str) (lines : list str) (pc : str -> pclass) (ptbl : list (str * list tcmd)) : tstate :=
   let parse := fun (_ : unit) t => lookup_parse ptbl t in
   let nm := fun (_ : unit) t => needs_more pc t in
   let st0 := {| t_out := []; t_status := 0; t_trap := false |} in
   let text := concat lines in
   let hit := lru_hit (V := option (list tcmd)) keq in
   let ins := lru_insert (K := str * unit) (V := option (list tcmd)) 64 in
-  if str_eqb mode (lit "file") then script_frontend _ _ _ (texec bash_rule) ton_exit tparse_error parse tt text st0
-  else if str_eqb mode (lit "c") then dash_c_frontend _ _ _ (texec bash_rule) ton_exit tparse_error parse keq hit ins [] tt text st0
-  else if str_eqb mode (lit "source") then source_delivery _ _ _ (texec bash_rule) ton_exit tparse_error parse tt text st0
-  else if str_eqb mode (lit "eval") then eval_delivery _ _ _ (texec bash_rule) ton_exit tparse_error parse keq hit ins [] tt text st0
-  else stdin_frontend _ _ _ (texec bash_rule) ton_exit tparse_error parse nm keq hit ins [] tt lines st0.
+  if str_eqb mode (lit "file") then script_frontend _ _ _ (texec legacy) ton_exit tparse_error parse tt text st0
+  else if str_eqb mode (lit "c") then dash_c_frontend _ _ _ (texec legacy) ton_exit tparse_error parse keq hit ins [] tt text st0
+  else if str_eqb mode (lit "source") then source_delivery _ _ _ (texec legacy) ton_exit tparse_error parse tt text st0
+  else if str_eqb mode (lit "eval") then eval_delivery _ _ _ (texec legacy) ton_exit tparse_error parse keq hit ins [] tt text st0
+  else stdin_frontend _ _ _ (texec legacy) ton_exit tparse_error parse nm keq hit ins [] tt lines st0.
 
 Definition entry_c15modes (a : list str) : list str :=
   match a with
@@ -104,7 +105,7 @@ Definition entry_c15modes (a : list str) : list str :=
           let '(ctbl, r3) := take_n (2 * dec_nat k) r2 in
           match r3 with
           | p :: r4 =>
-              let st := run_mode (str_eqb rule (lit "bash")) mode lines (lookup_class (dec_table (dec_nat k) ctbl)) (dec_parse_table (dec_nat p) r4) in
+              let st := run_mode (str_eqb rule (lit "legacy")) mode lines (lookup_class (dec_table (dec_nat k) ctbl)) (dec_parse_table (dec_nat p) r4) in
               t_out st ++ [lit "|"; show_Z (t_status st)]
           | [] => [lit "?malformed"]
           end
